@@ -27,7 +27,7 @@ CONE = {
     "C08": [("split", 800)],
     "C09": [("split_bars", 500), ("bar", 200)],
     "C10": [("bar", 700)],
-    "C11": [("history", 250), ("bar", 200), ("split_bars", 150), ("pad", 150), ("tok_roundtrip", 150), ("composition", 100)],
+    "C11": [("history", 250), ("bar", 200), ("split_bars", 150), ("pad", 150), ("tok_roundtrip", 150), ("composition", 100), ("util", 250)],
     "C12": [("midi_events", 300), ("midi_roundtrip", 400)],
     "C13": [("midi_load", 600)],
     "C14": [("transpose_rel", 600), ("history", 150), ("composition", 120)],
